@@ -750,6 +750,11 @@ func (x *hrun) judge(r *h.Run) {
 			// the harness closed a connection that had reached its final state
 			// (survived every deadline, or never fired): final() decided
 			r.Count("closes_by_harness_at_end", 1)
+		case errors.Is(c.Err, nbio.ErrDialTimeout):
+			// the callback has reported an established connection: the dial timeout cannot be
+			// the cause any more - a deadline of the connection fired with the wrong error
+			// (or the dial timer itself outlived the connect)
+			r.Violate("c16:established-connection-closed-with-dial-timeout", fmt.Sprintf("a connection whose dial callback had reported success was closed with %v at %s; neither side closed it\n%s", c.Err, dl.Ms(c.T), x.dump()), cs)
 		default:
 			x.outcome = "other-close"
 			r.Count("closes_other", 1)
@@ -857,7 +862,14 @@ func runCoreBatch(r *h.Run, cfg outb.Cfg, hists []histT, mon *dl.Monitor) {
 			// issued inside the dial callback (where the engine is just done with its dial timer)
 			done := make(chan error, 1)
 			op0 := hs.Ops[0]
-			derr := env.G.DialAsync("tcp", dialLn.Addr().String(), func(c *nbio.Conn, err error) {
+			// every second dialed history has a dial timeout (far away): the engine arms its dial timer
+			// in the connection's write-deadline slot and must be completely done with it at connect
+			dialTO := time.Duration(0)
+			if (hs.Index/6)%2 == 0 {
+				dialTO = time.Hour
+				r.Count("histories_dialed_with_dial_timeout", 1)
+			}
+			derr := env.G.DialAsyncTimeout("tcp", dialLn.Addr().String(), dialTO, func(c *nbio.Conn, err error) {
 				if err == nil {
 					x.srv = c
 					byConn.Store(c, x)
